@@ -95,7 +95,7 @@ mod verif_kani_sort {
     fn vk_c05_heap_2x2() {
         check_sort::<4>(2, 1);
     }
-    //@ id=C05.e1.sort.partition.4x1 props=C05,C15,C09 level=bounded tier=quick bound="4 rows x 1" budget=900 desc="partition: returns an in-bounds pivot position with nothing greater before it and nothing smaller after it; permutation; pointer-safe"
+    //@ id=C05.e1.sort.partition.4x1 props=C05,C15,C09 level=bounded tier=thorough bound="4 rows x 1" budget=6000 desc="partition: returns an in-bounds pivot position with nothing greater before it and nothing smaller after it; permutation; pointer-safe"
     #[kani::proof]
     #[kani::unwind(7)]
     fn vk_c05_partition_4x1() {
@@ -106,6 +106,27 @@ mod verif_kani_sort {
         assert!(p < 4);
         let mut i = 0;
         while i < 4 {
+            if i < p {
+                assert!(v[i] <= v[p]);
+            }
+            if i > p {
+                assert!(v[i] >= v[p]);
+            }
+            i += 1;
+        }
+        assert!(count(&before, 1, &probe) == count(&v, 1, &probe));
+    }
+    //@ id=C05.e1.sort.partition.3x1 props=C05,C15,C09 level=bounded tier=quick bound="3 rows x 1" budget=900 desc="partition, 3 rows: in-bounds pivot position, nothing greater before it, nothing smaller after it; permutation; pointer-safe"
+    #[kani::proof]
+    #[kani::unwind(6)]
+    fn vk_c05_partition_3x1() {
+        let before: [u8; 3] = kani::any();
+        let probe: [u8; 2] = kani::any();
+        let mut v = before;
+        let p = partition(&mut v, 1, rowcmp);
+        assert!(p < 3);
+        let mut i = 0;
+        while i < 3 {
             if i < p {
                 assert!(v[i] <= v[p]);
             }
